@@ -65,28 +65,32 @@ def run(ctx):
         sees = [e for e in p.events if e[0] == "validate_tx_sees"]
         havocs = [e for e in p.events if e[0] == "call" and e[1].endswith("validate_tx")]
         r = p.ret
+        if isinstance(r, sym.VUnknown):
+            r = ex.as_adt(r, None, True)  # e.g. `return validate_tx(..)`: the callee's result, Ok or Err
         if not isinstance(r, sym.VAdt) or r.discr is None:
             problems.append(f"path {i}: return value {r!r}")
             continue
         ncalls = len(havocs)
-        is_ok = z3.simplify(r.discr == 0)
         # threading: call j sees the state left by call j-1 (or the clone of the entry state)
         for j, s in enumerate(sees):
             exp = term(entry) if j == 0 else z3.Const("opq:" + havocs[j - 1][3] + ".havoc", U)
             queries.append(smt.Query(f"c39_path{i}_call{j}_sees_previous_delta", cond + [s[1] != exp], meta={"path": i, "calls": ncalls, "kind": "thread"}))
-        if z3.is_true(is_ok):
-            n_ok += 1
-            exp = term(entry) if ncalls == 0 else z3.Const("opq:" + havocs[-1][3] + ".havoc", U)
-            queries.append(smt.Query(f"c39_path{i}_ok_{ncalls}txs_state_is_last_delta", cond + [term(final) != exp], meta={"path": i, "calls": ncalls, "kind": "ok"}))
-        elif z3.is_false(is_ok):
-            n_err += 1
-            queries.append(smt.Query(f"c39_path{i}_err_after_{ncalls}txs_state_unchanged", cond + [term(final) != term(entry)], meta={"path": i, "calls": ncalls, "kind": "err"}))
-        else:
-            problems.append(f"path {i}: symbolic result discriminant")
+        for kind, dcond in (("ok", r.discr == 0), ("err", r.discr != 0)):
+            dc = z3.simplify(dcond)
+            if z3.is_false(dc):
+                continue
+            extra = [] if z3.is_true(dc) else [dc]
+            if kind == "ok":
+                n_ok += 1
+                exp = term(entry) if ncalls == 0 else z3.Const("opq:" + havocs[-1][3] + ".havoc", U)
+                queries.append(smt.Query(f"c39_path{i}_ok_{ncalls}txs_state_is_last_delta", cond + extra + [term(final) != exp], meta={"path": i, "calls": ncalls, "kind": "ok"}))
+            else:
+                n_err += 1
+                queries.append(smt.Query(f"c39_path{i}_err_after_{ncalls}txs_state_unchanged", cond + extra + [term(final) != term(entry)], meta={"path": i, "calls": ncalls, "kind": "err"}))
     # vacuity: there must be Ok paths for every length 0..k and Err paths for every length 1..k
-    oks = sorted(q.meta["calls"] for q in queries if q.meta.get("kind") == "ok")
-    errs = sorted(q.meta["calls"] for q in queries if q.meta.get("kind") == "err")
-    if oks != list(range(0, k + 1)) or errs != list(range(1, k + 2)):
+    oks = sorted(set(q.meta["calls"] for q in queries if q.meta.get("kind") == "ok"))
+    errs = sorted(set(q.meta["calls"] for q in queries if q.meta.get("kind") == "err"))
+    if not (set(range(0, k + 1)) <= set(oks)) or not (set(range(1, k + 1)) <= set(errs)):
         problems.append(f"unexpected path set: ok lengths {oks}, err lengths {errs} (expected 0..{k} / 1..{k + 1})")
     if n_limit == 0:
         problems.append("no path reached the unwinding limit: the loop was not recognised")
